@@ -50,6 +50,7 @@ def Net.pairCalls {Val} (n : Net) (gat : Nat → Nat → Nat → Val) (p q : Nat
 
 structure Net.Good (n : Net) : Prop where
   keys : ∀ p, Keys (n.ifs p)
+  bound : ∀ p, ∀ e ∈ n.ifs p, e.1 < n.P
   sz : 0 < n.sz
   mirror : ∀ p q, p < n.P → q < n.P → (n.sendSlots p q).length = (n.recvSlots q p).length
 
@@ -86,7 +87,7 @@ theorem Net.msgTo_eq {Val} (n : Net) (hg : n.Good) (gat : Nat → Nat → Val) (
     simp only [Option.bind_some]
     by_cases hc : sizeCalc (n.csS p) e.2.1 + sizeCalc (n.csT p) e.2.2 > 0
     · have hdiv : sizeCalc (n.csS p) e.2.1 * n.sz / n.sz = sizeCalc (n.csS p) e.2.1 := Nat.mul_div_cancel _ hg.sz
-      simp only [hc, if_true, sliceOf, sendMsgInfo, hdiv]
+      simp only [hc, if_true, sliceOf, sendMsgInfo]
       have := gatherBuf_slice gat (n.csS p) true (n.ifs p) hf
       simpa only [sendSide, if_true, Comm.sendBuf, Comm.csSend, Net.comm, buildComm, hdiv] using this
     · simp only [hc, if_false]
